@@ -749,6 +749,11 @@ func runP7Bad(sc M) {
 	dg := imgDigests()
 	encAlgLabel = str(sc, "enc")
 	defer func() { encAlgLabel = "" }()
+	if n := str(sc, "spcname"); n != "" {
+		full := []byte{0x00, 0x3c, 0x00, 0x3c, 0x00, 0x3c, 0x00, 0x4f, 0x00, 0x62, 0x00, 0x73, 0x00, 0x6f, 0x00, 0x6c, 0x00, 0x65, 0x00, 0x74, 0x00, 0x65, 0x00, 0x3e, 0x00, 0x3e, 0x00, 0x3e}
+		spcNameOverride = map[string][]byte{"odd27": full[:27], "one": {0x41}, "empty": {}, "odd3": {0, 0x41, 0}, "long": bytes.Repeat([]byte{0, 0x41}, 4000), "longodd": bytes.Repeat([]byte{0x41}, 7999)}[n]
+		defer func() { spcNameOverride = nil }()
+	}
 	der := buildSymBlob(str(b, "ct"), str(b, "content"), symSignersOf(list(b, "signers")), "signer", true, dg)
 	signatureOps(id, der)
 	signatureOps(id, buildSymBlob(str(b, "ct"), str(b, "content"), symSignersOf(list(b, "signers")), "none", false, dg))
